@@ -12,8 +12,31 @@ namespace Rx.Rs
 structure Obs where
   deriving DecidableEq, Repr, Inhabited
 
-/-- The calls made on the downstream observer, in order. -/
-abbrev Out := List Notif
+/-- A user callback without result held as a value (`F: FnOnce()`); `id` names it in the output. -/
+structure Callback where
+  id : Nat
+  deriving DecidableEq, Repr, Inhabited
+
+/-- A nested subscription (`U: Subscription`); `id` names it in the output and in `closedOf`. -/
+structure Sub where
+  id : Nat
+  deriving DecidableEq, Repr, Inhabited
+
+/-- What an observer / subscription does to the outside, in order: a call on THE downstream observer, a call on
+    the k-th of several downstream observers (subject subscribers, group subjects), a run of a user callback
+    without result (finalizer), `unsubscribe()` of a nested subscription. -/
+inductive Ev where
+  | n (x : Notif)
+  | to (k : Nat) (x : Notif)
+  | call (k : Nat)
+  | unsub (k : Nat)
+  deriving DecidableEq, Repr, Inhabited
+
+/-- The effects of one method call, in order. -/
+abbrev Out := List Ev
+
+/-- a model step (state, notifications passed downstream) read as a generated step -/
+def lift {σ} (p : σ × List Notif) : σ × Out := (p.1, p.2.map Ev.n)
 
 /-- How a Rust item type is seen as a `Val` (`Vec<Item>` ↦ cons-list, `(A, B)` ↦ pair, `bool` ↦ bool). -/
 class ToVal (α : Type) where
@@ -28,13 +51,19 @@ instance {α} [ToVal α] : ToVal (Option α) :=
   ⟨fun o => match o with | some v => Val.some (ToVal.toVal v) | none => Val.none⟩
 
 /-- `observer.next(v)` -/
-def emitNext {α} [ToVal α] (_ : Obs) (v : α) : Out := [Notif.next (ToVal.toVal v)]
+def emitNext {α} [ToVal α] (_ : Obs) (v : α) : Out := [Ev.n (Notif.next (ToVal.toVal v))]
 /-- `observer.error(e)` -/
-def emitError (_ : Obs) (e : Err) : Out := [Notif.error e]
+def emitError (_ : Obs) (e : Err) : Out := [Ev.n (Notif.error e)]
 /-- `observer.complete()` -/
-def emitComplete (_ : Obs) : Out := [Notif.complete]
+def emitComplete (_ : Obs) : Out := [Ev.n Notif.complete]
 /-- `observer.is_finished()`: the downstream's answer is a parameter. -/
 def isFinished (_ : Obs) (down : Bool) : Bool := down
+/-- a user callback without result is called (`func()` of finalize); `k` names the callback -/
+def emitCall (k : Nat) : Out := [Ev.call k]
+/-- `sub.is_closed()`: the nested subscription's answer is a parameter. -/
+def isClosed (s : Sub) (closedOf : Nat → Bool) : Bool := closedOf s.id
+/-- `unsubscribe()` of a nested subscription; `k` names it -/
+def emitUnsub (k : Nat) : Out := [Ev.unsub k]
 
 abbrev lt (a b : Nat) : Bool := decide (a < b)
 abbrev le (a b : Nat) : Bool := decide (a ≤ b)
